@@ -1,7 +1,7 @@
-(** * Static facts used by C03 (call graph) and C20 (no shared state). *)
+(** * Static fact used by C03: the call graph. *)
 Require Import Coq.Strings.String Coq.Lists.List Coq.Bool.Bool Coq.NArith.NArith.
 Require Import GAApi.Syntax GAApi.ModelTypes GAApi.ModelStatic GAApi.StaticProofs.
-Require Import GAApi.Gen.GenTypes GAApi.Gen.GenCallGraph GAApi.Checks.StaticChecks.
+Require Import GAApi.Gen.GenTypes GAApi.Gen.GenCallGraph GAApi.Checks.C03Checks.
 Import ListNotations.
 Open Scope string_scope.
 
@@ -21,23 +21,9 @@ Theorem C03_callgraph :
   /\ GenCallGraph.unknown_items = [].
 Proof.
   exact (conj entries_unreachable (conj arena_methods_lifted (conj edge_rule_lifted
-        (conj callbacks_borrow_lifted (proj2 (proj2 statics_nil)))))).
+        (conj callbacks_borrow_lifted cg_no_unknown)))).
 Qed.
 Print Assumptions C03_callgraph.
-
-(** The crate has no [static] / [static mut] item and no [thread_local!]; every field of [Context],
-    [MetricsInner] and [Metrics] is an owned value (cells, vectors, pointers to this arena's own
-    allocations, the per-context [Rc]); [Context::new] and [Metrics::new] take no arguments, so with no
-    statics there is nothing two arenas could share. *)
-Theorem C20_no_shared_state :
-  statics = [] /\ thread_locals = [] /\ GenCallGraph.unknown_items = []
-  /\ (forall n, In n state_structs -> state_struct_ok decls n = true)
-  /\ fresh_ctor fns "Context" && fresh_ctor fns "Metrics" = true.
-Proof.
-  exact (conj (proj1 statics_nil) (conj (proj1 (proj2 statics_nil)) (conj (proj2 (proj2 statics_nil))
-        (conj state_structs_lifted fresh_ctors_check)))).
-Qed.
-Print Assumptions C20_no_shared_state.
 
 (** ** Non-vacuity *)
 Example C03_callgraph_nonvacuous :
